@@ -275,14 +275,38 @@ fn oracles(rep: &mut Report, t: &Tree, case: &C12Case, r: &Result<Recs, String>,
         rep.count(&format!("guard.{}", g.unwrap_or("none")));
         rep.count_n("out.duplicate_path", dups.len() as u64);
     }
+    // the raw keys, separators unified and "."/".." resolved lexically
+    let lexical: Vec<Option<String>> = {
+        let mut ks: Vec<String> = case.flat().iter().map(|(k, _)| k.clone()).collect();
+        ks.sort();
+        ks.dedup();
+        ks.iter().map(|k| spec_normalize(&k.replace('\\', "/"))).collect()
+    };
+    let mut aliases = 0;
     for (rel, same_abs) in &dups {
+        // matcher of C12-respelled-duplicates: the records sharing the path denote one file (equal
+        // absolute paths), or the path is the lexical normal form of two or more distinct raw keys
+        let respelled = lexical.iter().filter(|k| k.as_deref() == Some(rel.as_str())).count() >= 2;
+        let same_abs = &(*same_abs || respelled);
         if g.is_some() {
             fails.push((format!("C12_unique_partial fails: {:?} reported more than once although the guard holds", rel), None));
         } else if *same_abs {
-            fails.push((format!("{:?} is reported more than once (same absolute path, different raw keys)", rel), Some(FINDING)));
+            fails.push((format!("{:?} is reported more than once (one file, different raw keys)", rel), Some(FINDING)));
+        } else if case.cfg.sd.as_ref().map_or(false, |sd| {
+            recs.iter().any(|(a, r, _)| r == rel && !r.starts_with('/') && *a != format!("{}/{}", sd, r))
+        }) {
+            // Not this property: two *different* files (different absolute paths, raw keys that are
+            // not respellings of each other) share one reported path, because one of them is a
+            // relative key that `guess_abs_path` resolved to a file outside the source dir
+            // (`<source-dir tail>/../x`) and that keeps its own normal form as relative path.
+            // Each file still appears once; counted and noted, see the harness notes.
+            aliases += 1;
         } else {
             fails.push((format!("{:?} is reported more than once with different absolute paths", rel), None));
         }
+    }
+    if counting && aliases > 0 {
+        rep.count_n("out.distinct_files_one_path", aliases);
     }
     // aggregation under the canonical guard: one record per file with the clamped sums
     if g == Some("canonical") {
@@ -326,8 +350,11 @@ fn oracles(rep: &mut Report, t: &Tree, case: &C12Case, r: &Result<Recs, String>,
                     rep.count_n("out.covdir_total_mismatch", bad.len() as u64);
                 }
                 for b in bad {
+                    if aliases > 0 {
+                        break; // two different files under one name: covdir cannot list both
+                    }
                     fails.push((format!("covdir counts a file more than once: {}", b),
-                        if !dups.is_empty() && dups.iter().all(|d| d.1) && g.is_none() { Some(FINDING) } else { None }));
+                        if !dups.is_empty() && g.is_none() { Some(FINDING) } else { None }));
                 }
             }
             Err(p) => fails.push((format!("output_covdir failed: {}", p), None)),
@@ -552,6 +579,7 @@ pub fn run(rep: &mut Report) {
     let mut rng = Rng::new(fnv64(&(rep.seed ^ 0xC12).to_le_bytes()));
     witness(rep);
     stream(rep, &mut rng);
+    rep.notes.push("observation (counted as out.distinct_files_one_path, not judged by C12): with a source dir whose last component is T, a relative key T/../x is resolved by guess_abs_path to <parent of source dir>/x, outside the source dir, and is reported with the relative path x; if x is also reported for <source dir>/x, two different files share one path".into());
     rep.notes.push("in-process only (add_results, rewrite_paths, output_covdir); the CLI is not driven here. Java/Kotlin keys, markers and symlinks are outside the generated domain; keys that denote a directory are not written with output_covdir (it panics on an empty path: not this property)".into());
 }
 
